@@ -6,6 +6,12 @@ props = [json.loads(l) for l in open(os.path.join(HERE, "properties.jsonl"))]
 
 # id -> (technique, level text, level note, design ref)
 CLAIMED = {
+ "C01": ("round-trip + metamorphic relations over printed reference ASTs and the harvested docs/tests corpus (Hypothesis)",
+         "Generated-input search: every string printed from a generated AST at five levels (descriptor, token, stochastic object, molecule, system; whitespace and number-format variants) and every docs/tests string the parser accepts is printed, re-parsed and printed again; fixed point, attribute-wise equality of P(s) and P(str(P(s))), equal generability, equal molecules under equal seeds (well-posed instances), and 'no-extension string == canonical string with |...| erased, no bar, all tokens and descriptors kept, re-parsable for a single molecule' are checked. Sampling, not exhaustive.",
+         "Trusted: the independent printer of gbsv/ast.py (valid strings by construction, cross-checked against RDKit's dummy-atom reading), public attributes as the notion of 'same object', RDKit canonical SMILES for 'same molecule'.", "DESIGN.md §2 C01"),
+ "C02": ("reference model by construction: generated ASTs printed by an independent printer, parse compared field by field (Hypothesis)",
+         "Generated-input search against a reference model: the AST is ground truth because the string is produced from it with a descriptor written exactly like a leaf atom; for every token the parsed descriptors (symbol, id, weight, list, attachment atom, bond order, numbering) and the atoms/internal bonds of the public SMILES fragment are compared with the AST, for objects the terminals, token lists, distribution family/parameters, for molecules/systems element kinds, order and mixture. Every legal descriptor placement is generated and its frequency reported. Sampling, not exhaustive.",
+         "Trusted: gbsv/ast.py printer (itself validated against RDKit by replacing descriptors with dummy atoms), RDKit SMILES parser for the fragment.", "DESIGN.md §2 C02"),
  "C03": ("exhaustive enumeration of the finite descriptor-pair universe against a truth table (three construction routes)",
          "Every ordered pair of the finite universe named by the property is evaluated against a truth table written from the statement, through the constructor, through the token/terminal parser and through the candidate filter; symmetry and weight-independence are checked on the same pairs. Exhaustive over that universe, so for this universe the check decides the property.",
          "Trusted: the truth table in gbsv/checks/c03.py (ids compared numerically, none and '-' are single bonds).", "DESIGN.md §2 C03"),
